@@ -47,11 +47,12 @@ def magnitude(rng):
 def shard(p):
     acc = Acc()
     rng = rng_for(p["seed"], PID, p["shard"])
-    d = Driver(p["bin"])
+    d = Driver(p["bin"], env=p.get("env"))
+    d_plain = Driver(p["bin"]) if p.get("env") else d
     try:
-        V = G.Vocab(d)
+        V = G.Vocab(d_plain)
         nonk = [e for e in V.entries if e["dims"][4] == 0]
-        VT = G.Vocab(d, include_offset=True)
+        VT = G.Vocab(d_plain, include_offset=True)
         prefixed = {sc: [e for e in VT.entries if e["key"] == KEY[sc] and not e["bare"]] for sc in "KCF"}
         reqs, meta = [], []
         # (a) chains
@@ -203,6 +204,8 @@ def shard(p):
                         acc.sample({"query": q, "value": str(got), "reading": "interval"}, cap=1)
     finally:
         d.close()
+        if d_plain is not d:
+            d_plain.close()
     return acc
 
 def run(tier, seed):
@@ -211,7 +214,8 @@ def run(tier, seed):
     chains = ["".join(c) for n in range(2, 6) for c in itertools.product("KCF", repeat=n)]
     reps, ncomp = (6, 18000) if tier == "quick" else (60, 300000)
     payloads = [{"seed": seed, "shard": i, "chains": chains[i::NCPU], "reps": reps, "n_compound": ncomp // NCPU, "bin": bins["dbg"], "kind": "dbg"} for i in range(NCPU)]
-    payloads += [{"seed": seed, "shard": 100 + i, "chains": chains[i::NCPU], "reps": 10 if tier == "thorough" else 1, "n_compound": ncomp // NCPU // 5, "bin": bins["rel"], "kind": "rel"} for i in range(NCPU)]
+    payloads += [{"seed": seed, "shard": 100 + i, "chains": chains[i::NCPU], "reps": 10 if tier == "thorough" else 1, "n_compound": ncomp // NCPU // 5, "bin": bins["rel"], "kind": "rel",
+                  "env": {"RUST_LOG": "anything=trace"} if i % 2 else None} for i in range(NCPU)]
     acc = run_shards(shard, payloads)
     return finish(PID, tier, seed, "exploration", acc, RULE, t0,
                   assumptions=["K = C + 273.15 and C = (F - 32) * 5/9 are the defining formulas", "a refused compound conversion is allowed by the property"],
